@@ -57,7 +57,7 @@ func symConv(fr *frame, utDst, utSrc types.Type, x value) (value, bool) {
 			case *types.Slice:
 				switch dst.Elem().Underlying().(*types.Basic).Kind() {
 				case types.Byte:
-					return append([]value{}, ss.b...), true
+					return append([]value{}, strBytes(ss)...), true
 				case types.Rune:
 					return fr.decodeRunes(ss), true
 				}
